@@ -7,13 +7,20 @@ R=${VERIF_REPO:-/repo}
 out=$1
 mkdir -p "$out"
 cp "$R/go.sum" "$V/engine/go.sum"
+# a repository copy other than /repo (background runs from a snapshot): same go.mod with the replace directive pointed at it
+MODFLAG=""
+if [ "$R" != "/repo" ]; then
+  sed "s#=> /repo#=> $R#" "$V/engine/go.mod" > "$out/go.mod"
+  cp "$R/go.sum" "$out/go.sum"
+  MODFLAG="-modfile=$out/go.mod"
+fi
 if [ ! -x "$V/bin/rewrite" ] || [ "$V/rewrite/main.go" -nt "$V/bin/rewrite" ]; then
   (cd "$V/rewrite" && go build -o "$V/bin/rewrite" .)
 fi
 "$V/bin/rewrite" -repo "$R" -out "$out" -exclude internal/io/signal -stubdir "$V/engine/stubs" -adddir "$V/engine/overlay" -adddir2 "$V/engine/overlay_controlled" \
   -hooks "$(tr '\n' ',' < "$V/engine/hooks.txt")" \
   -vos internal/config,internal/io/fs,internal/mapr,internal/ssh/client,internal/server/handlers,internal/io/prompt >"$out/rewrite.log" 2>&1 || { cat "$out/rewrite.log" >&2; exit 2; }
-(cd "$V/engine" && go build -tags verif -overlay "$out/overlay.json" -o "$out/verifc" ./cmd/verifc) || exit 2
+(cd "$V/engine" && go build $MODFLAG -tags verif -overlay "$out/overlay.json" -o "$out/verifc" ./cmd/verifc) || exit 2
 # native binary: only the verif-tagged added files, no rewriting
 python3 - "$out" "$V" "$R" <<'PY'
 import json,os,sys
@@ -28,6 +35,6 @@ for sub in ('overlay','overlay_native'):
                 ov[os.path.join(R,os.path.relpath(p,root))]=p
 json.dump({"Replace":ov},open(os.path.join(out,'overlay-native.json'),'w'))
 PY
-(cd "$V/engine" && go build -tags verif -overlay "$out/overlay-native.json" -o "$out/verifn" ./cmd/verifn) || exit 2
+(cd "$V/engine" && go build $MODFLAG -tags verif -overlay "$out/overlay-native.json" -o "$out/verifn" ./cmd/verifn) || exit 2
 # race-detector build of the native binary (free-running -race pass)
-(cd "$V/engine" && go build -race -tags verif -overlay "$out/overlay-native.json" -o "$out/verifr" ./cmd/verifn) || exit 2
+(cd "$V/engine" && go build $MODFLAG -race -tags verif -overlay "$out/overlay-native.json" -o "$out/verifr" ./cmd/verifn) || exit 2
